@@ -102,6 +102,86 @@ def arg_member(g, e, i=0):
 
 
 # --------------------------------------------------------------------------
+# what a pointer value designates, across helper boundaries
+# --------------------------------------------------------------------------
+
+def _param_index(f, name):
+    for i, p in enumerate(f.params):
+        if p['name'] == name:
+            return i
+    return None
+
+
+def _call_sites(prog, f):
+    """[(caller, call event)] of the direct calls of f"""
+    out = []
+    for (c, e) in prog.callers_of(f.name):
+        u = prog.unit_of(c)
+        t = prog.resolve(u, e['callee']) if u else None
+        if t is None or t.q == f.q:
+            out.append((c, e))
+    return out
+
+
+def value_records(prog, f, x, kinds, depth=3):
+    """Object kinds (records of `kinds`, public twins normalised) the pointer value x may designate in f: by its
+    static type (variable, member, iv_container_of); for an untyped (`void *`) local or parameter by what flows
+    into it: the definitions of the local, and for a parameter of a static helper the arguments of every caller."""
+    x = strip(x)
+    if not isinstance(x, dict):
+        return set()
+    k = x.get('k')
+    if k == 'var':
+        if x.get('ptr') and x.get('record'):
+            return {norm_rec(x['record'])} if x['record'] in kinds else set()
+        if x.get('vk') in ('local', 'param') and depth > 0 and '*' in str(x.get('type', '*')) and not x.get('record'):
+            out = set()
+            for r in local_defs(f).get(x['name'], []):
+                if r is not None:
+                    out |= value_records(prog, f, r, kinds, depth - 1)
+            i = _param_index(f, x['name']) if x.get('vk') == 'param' else None
+            if i is not None and f.static:
+                for (c, e) in _call_sites(prog, f):
+                    if len(e.get('args', [])) > i:
+                        out |= value_records(prog, c, e['args'][i], kinds, depth - 1)
+            return out
+        return set()
+    if k == 'member':
+        return {norm_rec(x['trecord'])} if x.get('tptr') and x.get('trecord') in kinds else set()
+    if k == 'container_of':
+        return {norm_rec(x['record'])} if x.get('record') in kinds else set()
+    if k == 'cond':
+        return value_records(prog, f, x['a'], kinds, depth) | value_records(prog, f, x['b'], kinds, depth)
+    return set()
+
+
+def points_to_local(prog, f, p, depth=3):
+    """the pointer p of f always designates a local variable of an active function (an out-parameter: `&v` at
+    every call site of the static helper, or a local only ever assigned such an address): a store through it
+    does not outlive the call chain"""
+    p = strip(p)
+    if not isinstance(p, dict):
+        return False
+    if p.get('k') == 'addr':
+        v = strip(p['e'])
+        while isinstance(v, dict) and v.get('k') in ('member', 'index') and not v.get('arrow'):
+            v = strip(v['base'])       # &local.field, &local[i]
+        return isinstance(v, dict) and v.get('k') == 'var' and v.get('vk') in ('local', 'param')
+    if not is_localvar(p) or depth <= 0:
+        return False
+    ds = local_defs(f).get(p['name'], [])
+    if any(r is None or not points_to_local(prog, f, r, depth - 1) for r in ds):
+        return False
+    if p.get('vk') == 'param' and _param_index(f, p['name']) is not None:
+        if not f.static or f.q in roles.address_taken(prog):
+            return False
+        sites = _call_sites(prog, f)
+        i = _param_index(f, p['name'])
+        return bool(sites) and all(len(e.get('args', [])) > i and points_to_local(prog, c, e['args'][i], depth - 1) for (c, e) in sites)
+    return bool(ds)
+
+
+# --------------------------------------------------------------------------
 # list operations: the primitive calls, or their open-coded definitions
 # --------------------------------------------------------------------------
 
@@ -116,31 +196,62 @@ def _is_lh(m, fields=('next', 'prev')):
 
 def _open_coded(g):
     """{id(store event): ('del'|'add', node pointer expression)} for list operations written out as stores in one block:
-         del:  N->prev->next = N->next; N->next->prev = N->prev;      (the later of the two stores is the operation)
+         del:  P->next = X; Q->prev = Y   where P and Y are both the (old) N->prev and X and Q both the (old) N->next of one
+               node N: spelled out (`N->prev->next = N->next; N->next->prev = N->prev`), through locals that cache the
+               neighbours (`prev = N->prev; next = N->next; prev->next = next; next->prev = prev`), in either order;
+               the later of the two stores is the operation
          add:  N->next = X; N->prev = Y;  with X, Y not NULL and not N itself (iv_list_add / iv_list_add_tail bodies)"""
     c = _cache_get(g, '_h01_oc')
     if c is not None:
         return c
     c = {}
+    def ident(p):
+        # the names a node pointer value is known by: its spelling and the locals that hold it (a cached
+        # `node = head.next` is spelled head.next while that is valid and `node` afterwards)
+        return frozenset(var_names(p) | {canon(p)})
+    parts = set()
     for blk in g.blocks.values():
-        half, link = {}, {}
+        half, link, env = [], {}, {}
+
+        def sym(x):
+            """(names of N, field, N) when the value x is N->field of a list node N (read here, or cached in a local)"""
+            m = strip(x)
+            if _is_lh(m):
+                P = _node_ptr(m)
+                return (ident(P), m['field'], P)
+            for n in var_names(x):
+                if n in env:
+                    return env[n]
+            return None
         for e in blk.events:
             if e['ev'] == 'call':
-                half, link = {}, {}
+                half, link, env = [], {}, {}
+                continue
+            if e['ev'] == 'store' and isinstance(strip(e['lhs']), dict) and strip(e['lhs']).get('k') == 'var':
+                x = strip(e['lhs'])['name']
+                half = [h for h in half if x not in h[0]]
+                env = {n: v for n, v in env.items() if n != x and x not in v[0]}
+                if e.get('op') == '=' and 'rhs' in e and _is_lh(strip(e['rhs'])):
+                    v = sym(e['rhs'])
+                    if x not in v[0]:
+                        env[x] = v
                 continue
             if e['ev'] != 'store' or e.get('op') != '=' or 'rhs' not in e:
                 continue
             l, r = strip(e['lhs']), strip(e['rhs'])
             if not _is_lh(l):
                 continue
-            lb = strip(l['base']) if l['arrow'] else None
-            if _is_lh(lb) and _is_lh(r) and lb['field'] != l['field'] and r['field'] == l['field'] \
-                    and canon(_node_ptr(lb)) == canon(_node_ptr(r)):
-                k = canon(_node_ptr(r))
-                if half.get(k, l['field']) != l['field']:
-                    c[id(e)] = ('del', _node_ptr(r))
-                half[k] = l['field']
+            sl = sym(l['base']) if l['arrow'] else None
+            sr = sym(e['rhs'])
+            if sl and sr and sl[1] != l['field'] and sr[1] == l['field'] and (sl[0] & sr[0]):
+                k = sl[0] | sr[0]
+                mates = [h for h in half if (k & h[0]) and h[1] != l['field']]
+                if mates:
+                    c[id(e)] = ('del', sr[2])
+                    parts.update(h[2] for h in mates)
+                half.append((k, l['field'], id(e)))
                 continue
+            env = {}
             if isinstance(r, dict) and r.get('k') not in ('null',) and const_of(r) is None:
                 k = canon(_node_ptr(l))
                 if canon(r) == k:
@@ -148,7 +259,61 @@ def _open_coded(g):
                 if link.get(k, l['field']) != l['field']:
                     c[id(e)] = ('add', _node_ptr(l))
                 link[k] = l['field']
+    _cache_put(g, '_h01_ocp', frozenset(parts))
     return _cache_put(g, '_h01_oc', c)
+
+
+def edge_atoms(blk, si):
+    """atoms (op, lhs canon, rhs canon, lhs expr, rhs expr) that hold on the edge to blk.succ[si]: the branch condition
+    with its polarity; for `switch (x)`: x == v on the edge of `case v`, x != every case value on the default edge"""
+    from ..core import norm_cond
+    t = blk.term
+    if not t or t.get('cond') is None:
+        return []
+    if t.get('cls') == 'SwitchStmt':
+        cases = t.get('cases') or []
+        c = t['cond']
+        if si >= len(cases):
+            return []
+        me = cases[si]
+        if isinstance(me, int):
+            return [('==', canon(c), str(me), c, {'k': 'int', 'v': me})]
+        if me == 'default':
+            return [('!=', canon(c), str(cv), c, {'k': 'int', 'v': cv}) for cv in cases if isinstance(cv, int)]
+        return []
+    if t.get('cls') == 'MethodDispatch' or len(blk.succ) != 2:
+        return []
+    return [a for a in norm_cond(t['cond'], si == 0) if a[0] != 'const']
+
+
+def open_coded_parts(g):
+    """ids of the stores that are the first half of an open-coded list operation recognised by _open_coded"""
+    _open_coded(g)
+    return _cache_get(g, '_h01_ocp') or frozenset()
+
+
+def is_local_name(g, name):
+    """name is a local of g (a variable, not the spelling of an access path)"""
+    c = _cache_get(g, '_h01_locals')
+    if c is None:
+        c = set()
+        for e in g.events():
+            if e['ev'] == 'decl':
+                c.add(e['name'])
+            for x in walk(e):
+                if is_localvar(x):
+                    c.add(x['name'])
+        _cache_put(g, '_h01_locals', c)
+    return name in c
+
+
+HARMLESS_EXTERNALS = ('free', 'iv_list_empty', '___mutex_lock', '___mutex_unlock', 'close', 'abort')
+
+
+def harmless_call(g, e):
+    """a direct call that cannot modify a list: a pure primitive or a libc function that is not given a list"""
+    nm = e.get('callee')
+    return nm in PURE_CALLS or nm in HARMLESS_EXTERNALS
 
 
 def list_op(g, e):
@@ -344,6 +509,29 @@ def pointer_closure(g, seeds):
     return T
 
 
+def slot_identity(prog, f, ptr, depth=2):
+    """what array / memory a slot pointer of f points into, as far as it can be named: the record fields and globals
+    the pointer is derived from (through locals, and for a parameter of a static helper through the arguments of its
+    callers); empty when it comes out of a call (a heap node)"""
+    kinds = {}
+    for e in f.events():
+        for x in walk(e):
+            if x.get('k') == 'var':
+                kinds[x['name']] = x.get('vk')
+    out = set()
+    for d in pointer_closure(f, designators(ptr)):
+        if d[0] == 'fld':
+            out.add(d)
+        elif d[0] == 'var' and kinds.get(d[1]) in ('global', 'staticlocal'):
+            out.add(('glob', d[1]))
+        elif d[0] == 'var' and depth > 0 and f.static and _param_index(f, d[1]) is not None:
+            i = _param_index(f, d[1])
+            for (c, e) in _call_sites(prog, f):
+                if len(e.get('args', [])) > i:
+                    out |= slot_identity(prog, c, e['args'][i], depth - 1)
+    return frozenset(out)
+
+
 def reads_block(x, T):
     """does evaluating x read memory of the block designated by T (element, field of element, *p)"""
     for y in walk(x):
@@ -372,13 +560,16 @@ def inlined(prog, f, **kw):
     key = (f.q, tuple(sorted(kw.items())))
     if key not in c:
         g = Inliner(prog, **kw).inline(f)
+        _resolve_out_params(g)
+        lowered = _lower_cond_stores(g)
         if _forward_temp_copies(g) and kw.get('prune'):
             from ..analyses import prune_infeasible
             prune_infeasible(g)
         # a flag fed by a flag (`alive = helper()` with a boolean helper; `b = a`) only becomes a constant-valued
         # local once the first one is eliminated: repeat the core's flag partitioning until nothing is left
         if os.environ.get('IVY_NO_FLAGS') != '1':
-            for _ in range(3):
+            shadows = _null_shadow_insert(g, f)
+            for _ in range(8 if shadows else 3):
                 done = list(partition_flags(g))
                 for name in _copied_flags(g)[:4]:
                     if _partition_one(g, name, 900):
@@ -389,8 +580,296 @@ def inlined(prog, f, **kw):
                     copy_propagate(g)
                 except AnalysisBroken:
                     pass
+            if shadows:
+                _null_shadow_remove(g)
+        if lowered and kw.get('prune'):
+            from ..analyses import prune_infeasible
+            prune_infeasible(g)
         c[key] = g
     return c[key]
+
+
+NZ = '#nz'
+
+
+def _null_shadow_insert(g, root):
+    """Trace partitioning on the nullness of pointer locals.  A dequeue / lookup helper that returns "the object, or
+    NULL when there is none" (`while ((we = pop(q)) != NULL)`) merges, at its return, the path that found the queue
+    empty with the path that took an element; the caller's NULL test separates them again.  For every local pointer p
+    that is only ever assigned NULL, an address (`&x`, iv_container_of(..): never NULL) or a copy of another such
+    local, and that is compared with NULL, a shadow integer `p#nz` is maintained next to it and the NULL tests of p are
+    spelled with the shadow; the core's flag partitioning then threads the tests.  The shadows are removed afterwards
+    (_null_shadow_remove): the result is a refinement of the CFG with the original events and conditions."""
+    addr_taken, defs = set(), {}
+    rootparams = {p['name'] for p in root.params}
+    for e in g.events():
+        for x in walk(e):
+            if x.get('k') == 'addr':
+                v = strip(x['e'])
+                if isinstance(v, dict) and v.get('k') == 'var':
+                    addr_taken.add(v['name'])
+        if e['ev'] == 'store':
+            l = strip(e['lhs'])
+            if isinstance(l, dict) and l.get('k') == 'var' and l.get('vk') in ('local', 'param'):
+                defs.setdefault(l['name'], []).append(e)
+
+    def classify(e):
+        if e.get('op') != '=' or 'rhs' not in e:
+            return None
+        r = strip(e['rhs'])
+        if not isinstance(r, dict):
+            return None
+        if r.get('k') == 'null' or (r.get('k') == 'int' and r['v'] == 0):
+            return ('const', 0)
+        if r.get('k') in ('addr', 'container_of'):
+            return ('const', 1)
+        if is_localvar(r):
+            return ('copy', r['name'])
+        return None
+    cand = {n for n, es in defs.items() if n not in addr_taken and n not in rootparams and NZ not in n
+            and all(classify(e) is not None for e in es)}
+    changed = True
+    while changed:
+        changed = False
+        for n in sorted(cand):
+            if any(classify(e)[0] == 'copy' and classify(e)[1] not in cand for e in defs[n]):
+                cand.discard(n)
+                changed = True
+    if not cand:
+        return 0
+
+    def shadow(n):
+        return {'k': 'load', 'e': {'k': 'var', 'name': n + NZ, 'vk': 'local', 'type': 'int'}}
+
+    def tested_var(x):
+        """candidate whose value the boolean operand x tests: p, (p = q), or an expression known to equal p"""
+        y = x
+        while isinstance(y, dict) and y.get('k') in ('load', 'cast', 'paren', 'stmtexpr') and isinstance(y.get('e'), dict):
+            y = y['e']
+        if isinstance(y, dict) and y.get('k') == 'assign' and y.get('op') == '=':
+            y = strip(y['l'])
+        if is_localvar(y) and y['name'] in cand:
+            return y['name']
+        return None
+
+    used = set()
+
+    def rw(c):
+        """the condition with NULL tests of candidates spelled with their shadows (None: nothing to rewrite)"""
+        c0 = c
+        while isinstance(c, dict) and c.get('k') in ('load', 'cast', 'paren') and isinstance(c.get('e'), dict):
+            c = c['e']
+        if not isinstance(c, dict):
+            return None
+        k = c.get('k')
+        if k == 'un' and c.get('op') == '!':
+            a = rw(c['e'])
+            return None if a is None else dict(c, e=a)
+        if k == 'bin' and c.get('op') in ('&&', '||'):
+            a, b = rw(c['l']), rw(c['r'])
+            if a is None and b is None:
+                return None
+            return dict(c, l=a if a is not None else c['l'], r=b if b is not None else c['r'])
+        if k == 'bin' and c.get('op') in ('==', '!='):
+            for (a, b) in ((c['l'], c['r']), (c['r'], c['l'])):
+                sb = strip(b)
+                if isinstance(sb, dict) and (sb.get('k') == 'null' or (sb.get('k') == 'int' and sb['v'] == 0)):
+                    n = tested_var(a)
+                    if n:
+                        used.add(n)
+                        return {'k': 'bin', 'op': c['op'], 'l': shadow(n), 'r': {'k': 'int', 'v': 0}, 'type': 'int', '_orig': c0}
+            return None
+        n = tested_var(c0)
+        if n:
+            used.add(n)
+            return {'k': 'bin', 'op': '!=', 'l': shadow(n), 'r': {'k': 'int', 'v': 0}, 'type': 'int', '_orig': c0}
+        return None
+
+    newconds = {}
+    for b, blk in g.blocks.items():
+        if blk.term and blk.term.get('cond') is not None and len(blk.succ) == 2 and blk.term.get('cls') not in ('SwitchStmt', 'MethodDispatch'):
+            c = rw(blk.term['cond'])
+            if c is not None:
+                newconds[b] = c
+    # only the candidates a test depends on (through copies), and only when a NULL can reach them
+    need, work = set(), list(used)
+    while work:
+        n = work.pop()
+        if n in need:
+            continue
+        need.add(n)
+        for e in defs[n]:
+            k = classify(e)
+            if k[0] == 'copy':
+                work.append(k[1])
+    if not any(classify(e) == ('const', 0) for n in need for e in defs[n]):
+        return 0
+    for b, c in newconds.items():
+        g.blocks[b].term = dict(g.blocks[b].term, cond=c)
+    for b, blk in g.blocks.items():
+        out = []
+        for e in blk.events:
+            out.append(e)
+            if e['ev'] == 'store':
+                l = strip(e['lhs'])
+                if isinstance(l, dict) and l.get('k') == 'var' and l['name'] in need and l.get('vk') in ('local', 'param'):
+                    k = classify(e)
+                    rhs = {'k': 'int', 'v': k[1]} if k[0] == 'const' else shadow(k[1])
+                    out.append({'ev': 'store', 'op': '=', 'lhs': {'k': 'var', 'name': l['name'] + NZ, 'vk': 'local', 'type': 'int'},
+                                'rhs': rhs, 'loc': e.get('loc', ''), 'used': False, 'synthetic': True, 'shadow': True,
+                                'fn': e.get('fn'), 'chain': e.get('chain')})
+        blk.events = out
+        for i, e in enumerate(blk.events):
+            e['_b'] = b
+            e['_i'] = i
+    g._preds = None
+    return len(need)
+
+
+def _null_shadow_remove(g):
+    def back(nd):
+        return nd['_orig'] if isinstance(nd, dict) and '_orig' in nd else None
+    for b, blk in g.blocks.items():
+        blk.events = [e for e in blk.events if not e.get('shadow')]
+        for i, e in enumerate(blk.events):
+            e['_b'] = b
+            e['_i'] = i
+        if blk.term and blk.term.get('cond') is not None and any('_orig' in x for x in walk(blk.term['cond'])):
+            blk.term = dict(blk.term, cond=subst(blk.term['cond'], back))
+    g._preds = None
+
+
+def _resolve_out_params(g):
+    """A pointer with a single definition `p = &X` names the location X wherever it is dereferenced:
+       * an out-parameter of an inlined helper is the caller's variable: `*&v` is `v`, and `*p` is `v` for the
+         inliner's temporary `p = &v`; `take(&batch, &t)` storing `*_t = obj` thereby (re)defines the caller's `t` like
+         a returned value would;
+       * a cached address (`slot = &st->marker`, also when obtained from an accessor helper that returns the address)
+         names the field: `*slot = NULL` is `st->marker = NULL`.
+       X is a variable, or a field path `v->a.b` / `v.a.b` of a variable v that is never reassigned (so that the path
+       designates the same location at the definition and at the use); p's own address is never taken."""
+    addr_taken, ndefs, cand = set(), {}, {}
+    for e in g.events():
+        if e['ev'] == 'store':
+            l = strip(e['lhs'])
+            if isinstance(l, dict) and l.get('k') == 'var':
+                ndefs[l['name']] = ndefs.get(l['name'], 0) + 1
+                r = strip_load(e['rhs']) if e.get('op') == '=' and 'rhs' in e else None
+                if isinstance(r, dict) and l.get('vk') in ('local', 'param'):
+                    cand[l['name']] = r
+    for e in g.events():
+        for x in walk(e):
+            if x.get('k') == 'addr':
+                v = strip(x['e'])
+                if isinstance(v, dict) and v.get('k') == 'var':
+                    addr_taken.add(v['name'])
+    rootparams = {p_['name'] for p_ in g.params}
+
+    def stable_path(x):
+        """x is v, v.a.b or v->a.b with v a local that is never reassigned (for a bare variable: any local)"""
+        y = strip_load(x)
+        if isinstance(y, dict) and y.get('k') == 'var':
+            return y.get('vk') in ('local', 'param')
+        while isinstance(y, dict) and y.get('k') == 'member':
+            b_ = strip_load(y['base'])
+            if y['arrow'] or (isinstance(b_, dict) and b_.get('k') == 'var'):
+                return isinstance(b_, dict) and b_.get('k') == 'var' and b_.get('vk') in ('local', 'param') \
+                    and ndefs.get(b_['name'], 0) <= (0 if b_['name'] in rootparams else 1) and b_['name'] not in addr_taken
+            y = b_
+        return False
+    target = {}
+    changed = True
+    while changed:
+        changed = False
+        for p_, r in cand.items():
+            if p_ in target or ndefs.get(p_) != 1 or p_ in addr_taken or p_ in rootparams:
+                continue
+            if r.get('k') == 'addr' and stable_path(r['e']):
+                target[p_] = strip_load(r['e'])
+                changed = True
+            elif r.get('k') == 'var' and r['name'] in target:
+                target[p_] = target[r['name']]
+                changed = True
+
+    def r_(nd):
+        if nd.get('k') == 'deref':
+            b = strip_load(nd['e'])
+            if isinstance(b, dict) and b.get('k') == 'addr':
+                return subst(b['e'], r_)
+            if isinstance(b, dict) and b.get('k') == 'var' and b['name'] in target:
+                return dict(target[b['name']])
+        return None
+    n = 0
+    for b, blk in g.blocks.items():
+        out = []
+        for e in blk.events:
+            if any(x.get('k') == 'deref' for x in walk(e)):
+                e2 = {}
+                for k_, v in e.items():
+                    e2[k_] = subst(v, r_) if isinstance(v, (dict, list)) and k_ != 'chain' else v
+                n += 1
+                e = e2
+            out.append(e)
+        blk.events = out
+        if blk.term and blk.term.get('cond') is not None and any(x.get('k') == 'deref' for x in walk(blk.term['cond'])):
+            blk.term = dict(blk.term, cond=subst(blk.term['cond'], r_))
+    return n
+
+
+def _lower_cond_stores(g, limit=64):
+    """`x = c ? a : b` (x a local, c / a / b free of calls and assignments) becomes `if (c) x = a; else x = b;`: a decision
+    computed into a variable with a conditional-expression chain (`action = idle ? KICK : full ? NONE : START;
+    switch (action)`) then is a local that is only assigned constants, which flag partitioning threads into the
+    switch / if that consumes it.  The branch re-evaluates c where the store stood; nothing between the original
+    evaluation of c and the store can have changed it (only the reads of the arms lie in between)."""
+    from ..core import Block
+
+    def pure(x):
+        return not any(y.get('k') in ('call', 'assign', 'incdec', 'stmtexpr') for y in walk(x))
+
+    def cond_rhs(e):
+        if e['ev'] != 'store' or e.get('op') != '=' or 'rhs' not in e:
+            return None
+        l = strip(e['lhs'])
+        if not (isinstance(l, dict) and l.get('k') == 'var' and l.get('vk') in ('local', 'param')):
+            return None
+        r = e['rhs']
+        while isinstance(r, dict) and r.get('k') in ('load', 'cast', 'paren') and isinstance(r.get('e'), dict):
+            r = r['e']
+        if isinstance(r, dict) and r.get('k') == 'cond' and pure(r):
+            return r
+        return None
+    n = 0
+    work = list(g.blocks)
+    while work and n < limit:
+        b = work.pop()
+        blk = g.blocks[b]
+        for i, e in enumerate(blk.events):
+            r = cond_rhs(e)
+            if r is None:
+                continue
+            nid = max(g.blocks) + 1
+            rest = Block(nid, blk.events[i + 1:], list(blk.succ), blk.term, blk.noreturn)
+            bt = Block(nid + 1, [dict(e, rhs=r['a'])], [nid], None)
+            bf = Block(nid + 2, [dict(e, rhs=r['b'])], [nid], None)
+            for nb in (rest, bt, bf):
+                g.blocks[nb.id] = nb
+            blk.events = blk.events[:i]
+            blk.term = {'cls': 'CondStore', 'cond': r['c'], 'loc': e.get('loc', '')}
+            blk.succ = [bt.id, bf.id]
+            blk.noreturn = False
+            if g.exit == b:
+                g.exit = nid
+            work += [nid, nid + 1, nid + 2]
+            n += 1
+            break
+    if n:
+        for b, blk in g.blocks.items():
+            for i, e in enumerate(blk.events):
+                e['_b'] = b
+                e['_i'] = i
+        g._preds = None
+    return n
 
 
 def _forward_temp_copies(g):
@@ -489,21 +968,50 @@ def _copied_flags(g):
     return sorted(n for n in ok if n not in bad and n not in addr_taken and n in copied)
 
 
-def call_target(g, e):
-    """the function-pointer member an indirect call goes through: `o->handler(..)`, or a local / parameter of an
-    inlined trampoline all of whose definitions read the same member (`fn = o->handler; fn(arg)`)"""
+def call_targets(g, e, depth=4):
+    """the function-pointer members an indirect call may go through: `o->handler(..)`, or a local / parameter /
+    return temporary all of whose definitions read such members (`fn = o->handler; fn(arg)`, a trampoline's parameter,
+    `h = pick_handler(o, band)` with a selector helper returning one of several handler fields, `c ? o->a : o->b`);
+    [] when some definition is not understood"""
     fe = e.get('fnexpr')
     if fe is None:
+        return []
+    seen = set()
+
+    def res(x, d):
+        m = strip(x)
+        if not isinstance(m, dict):
+            return None
+        if m.get('k') == 'member':
+            return [m]
+        if m.get('k') == 'cond':
+            a, b = res(m['a'], d), res(m['b'], d)
+            return None if a is None or b is None else a + b
+        if m.get('k') == 'null' or (m.get('k') == 'int' and m.get('v') == 0):
+            return []          # a NULL alternative is never called
+        if is_localvar(m) and g is not None and d > 0:
+            if m['name'] in seen:
+                return []
+            seen.add(m['name'])
+            ds = local_defs(g).get(m['name'])
+            if not ds or any(r is None for r in ds):
+                return None
+            out = []
+            for r in ds:
+                o = res(r, d - 1)
+                if o is None:
+                    return None
+                out += o
+            return out
         return None
-    m = strip(fe)
-    if isinstance(m, dict) and m.get('k') == 'member':
-        return m
-    if is_localvar(m) and g is not None:
-        ds = local_defs(g).get(m['name'])
-        if ds and all(r is not None for r in ds):
-            ms = [strip(r) for r in ds]
-            if all(isinstance(x, dict) and x.get('k') == 'member' for x in ms) and len({canon(x) for x in ms}) == 1:
-                return ms[0]
+    return res(fe, depth) or []
+
+
+def call_target(g, e):
+    """the single function-pointer member an indirect call goes through (None when there are none or several)"""
+    ms = call_targets(g, e)
+    if ms and len({canon(x) for x in ms}) == 1:
+        return ms[0]
     return None
 
 
@@ -511,10 +1019,10 @@ def cb_kind(g, e):
     """kind of user callback entered by the call event (None: not a user callback)"""
     if e['ev'] != 'call' or 'fnexpr' not in e:
         return None
-    m = call_target(g, e)
-    if m is None:
-        return None
-    return CALLBACK_FIELDS.get((m.get('record'), m['field']))
+    kinds = {CALLBACK_FIELDS.get((m.get('record'), m['field'])) for m in call_targets(g, e)}
+    if len(kinds) == 1 and None not in kinds:
+        return kinds.pop()
+    return None
 
 
 def is_user_cb(e):
@@ -548,6 +1056,173 @@ def callback_contexts(prog):
     return out
 
 
+def _through(g, x):
+    """the lvalue *p spelled as the location p is known to point at (`slot = &o->marker; *slot = v` is `o->marker = v`)"""
+    y = strip(x)
+    if isinstance(y, dict) and y.get('k') == 'deref':
+        t = strip(resolve_ptr(g, y['e']))
+        if isinstance(t, dict) and t.get('k') == 'addr' and t is not strip(y['e']):
+            return t['e']
+    return x
+
+
+def stale_after_callback(fn, is_callback, keep_kinds=()):
+    """analyses.stale_after_callback (same analysis, same result tuple) with the liveness marker identified by its
+    role instead of its shape:
+       marker M : a location for which the function executed `M = v` (v a pointer to a user object), M being a field,
+                  a field written through a pointer to it (`*slot = v`), or a local whose address was published (the
+                  object pointer itself, or a separate `void *alive = v` all of whose definitions are v / NULL);
+                  the edge `M != NULL` (or `M == v`) revives v."""
+    from ..analyses import USER_OBJECT_RECORDS, derefs_by_event
+    from ..core import norm_cond
+    objvars = {}
+    for e in fn.events():
+        for x in walk(e):
+            if x.get('k') == 'var' and x.get('vk') in ('local', 'param') and x.get('ptr') \
+                    and x.get('record') in USER_OBJECT_RECORDS:
+                objvars[x['name']] = x['record']
+        if e['ev'] == 'decl' and e.get('ptr') and e.get('record') in USER_OBJECT_RECORDS:
+            objvars[e['name']] = e['record']
+    for p in fn.params:
+        if p.get('ptr') and p.get('record') in USER_OBJECT_RECORDS:
+            objvars[p['name']] = p['record']
+    defs = local_defs(fn)
+    # not user-owned: a pointer that only ever holds the address of a sub-object embedded in a record of the library
+    # (`timer = &thr->idle_timer`, `&st->events_kick`): that memory belongs to the library's record, no callback can
+    # free it (reading the field through `thr->idle_timer.x` was never a finding either)
+    def embedded_in_library(r):
+        a = strip(r)
+        if not (isinstance(a, dict) and a.get('k') == 'addr'):
+            return False
+        y = strip(a['e'])
+        if not (isinstance(y, dict) and y.get('k') == 'member'):
+            return False
+        while isinstance(y, dict) and y.get('k') in ('member', 'index'):
+            if y.get('k') == 'member' and y['arrow']:
+                b = strip(y['base'])
+                return isinstance(b, dict) and b.get('k') == 'var' and b.get('ptr') and bool(b.get('record')) \
+                    and b.get('record') not in USER_OBJECT_RECORDS and b['name'] not in objvars
+            y = strip(y['base'])
+        return isinstance(y, dict) and y.get('k') == 'var' and y.get('vk') in ('global', 'staticlocal')
+    params = {p['name'] for p in fn.params}
+    for v in sorted(objvars):
+        ds = defs.get(v)
+        if v not in params and ds and all(r is not None and embedded_in_library(r) for r in ds):
+            del objvars[v]
+    # interior pointers: a local only ever assigned `&v->member...` of an object pointer v dies and revives with v
+    derived = {}
+    for d, ds in defs.items():
+        if d in objvars or not ds or any(r is None for r in ds):
+            continue
+        owners = set()
+        for r in ds:
+            a = strip(r)
+            o = None
+            if isinstance(a, dict) and a.get('k') == 'addr':
+                y = strip(a['e'])
+                while isinstance(y, dict) and y.get('k') in ('member', 'index'):
+                    if y.get('k') == 'member' and y['arrow']:
+                        b = strip(y['base'])
+                        o = b['name'] if is_localvar(b) and b['name'] in objvars else None
+                        break
+                    y = strip(y['base'])
+            owners.add(o)
+        if len(owners) == 1 and None not in owners:
+            derived[d] = owners.pop()
+    for d, v in derived.items():
+        objvars[d] = objvars[v]
+    published = set()       # locals whose address is stored somewhere
+    for e in fn.events():
+        if e['ev'] == 'store' and e.get('op') == '=' and 'rhs' in e:
+            r = strip(e['rhs'])
+            if isinstance(r, dict) and r.get('k') == 'addr':
+                v = strip(r['e'])
+                if isinstance(v, dict) and v.get('k') == 'var':
+                    published.add(v['name'])
+    markers = {}      # canon(M) -> var
+    for e in fn.events():
+        if e['ev'] == 'store' and e.get('op') == '=' and 'rhs' in e:
+            r = strip(e['rhs'])
+            lhs = _through(fn, e['lhs'])
+            l = strip(lhs)
+            if isinstance(r, dict) and r.get('k') == 'var' and r['name'] in objvars and isinstance(l, dict):
+                if l.get('k') == 'member':
+                    markers[canon(lhs)] = r['name']
+                elif l.get('k') == 'var' and l.get('vk') == 'local' and l['name'] in published and l['name'] not in objvars:
+                    ds = defs.get(l['name'], [])
+                    if all(d is not None and (const_of(d) == 0 or (is_localvar(strip(d)) and strip(d)['name'] == r['name'])) for d in ds):
+                        markers[l['name']] = r['name']
+            if isinstance(r, dict) and r.get('k') == 'addr':
+                v = strip(r['e'])
+                if isinstance(v, dict) and v.get('k') == 'var' and v['name'] in objvars:
+                    markers[v['name']] = v['name']
+
+    def transfer(e, S):
+        if e['ev'] == 'store':
+            l = strip(e['lhs'])
+            if l.get('k') == 'var' and any(x[0] == l['name'] for x in S):
+                S = frozenset(x for x in S if x[0] != l['name'])
+        elif e['ev'] == 'decl':
+            if any(x[0] == e['name'] for x in S):
+                S = frozenset(x for x in S if x[0] != e['name'])
+        elif e['ev'] == 'call':
+            cb = is_callback(e)
+            if cb:
+                add = set()
+                for v, rec in objvars.items():
+                    if rec in keep_kinds or (cb == 'work' and rec == 'iv_work_item'):
+                        continue
+                    add.add((v, e.get('loc')))
+                S = S | frozenset(add)
+        return S
+
+    def edge(blk, si, S):
+        if not S or not blk.term or blk.term.get('cond') is None or len(blk.succ) != 2:
+            return S
+        if blk.term.get('cls') in ('SwitchStmt', 'MethodDispatch'):
+            return S
+        for (op, lc, rc, l, r) in norm_cond(blk.term['cond'], si == 0):
+            keys = {lc}
+            if isinstance(l, dict):
+                keys.add(canon(_through(fn, l)))
+            for k in keys:
+                if k not in markers:
+                    continue
+                if (op == '!=' and rc == '0') or (op == '==' and rc == markers[k]):
+                    v = markers[k]
+                    S = frozenset(x for x in S if x[0] != v and derived.get(x[0]) != v)
+        return S
+
+    _, ev_in = forward(fn, frozenset(), transfer, lambda a, b: a | b, edge=edge)
+    reports = []
+    for b, blk in fn.blocks.items():
+        for i, e in enumerate(blk.events):
+            S = ev_in.get((b, i))
+            if not S:
+                continue
+            names = {x[0]: x[1] for x in S}
+            for (v, acc) in derefs_by_event(e):
+                if v['name'] in names:
+                    reports.append((e, v['name'], acc, names[v['name']]))
+    return reports, objvars, markers
+
+
+def field_exists(prog, rec, fld):
+    """does any function of the program mention the member rec.fld"""
+    c = prog.__dict__.setdefault('_h01_fields', None)
+    if c is None:
+        c = set()
+        for f in prog.all_funcs():
+            for e in f.events():
+                for x in walk(e):
+                    if x.get('k') == 'member':
+                        c.add((x.get('record'), x['field']))
+                    elif x.get('k') == 'container_of':
+                        c.add((x.get('record'), x.get('member')))
+        prog.__dict__['_h01_fields'] = c
+    return (rec, fld) in c or (norm_rec(rec), fld) in c
+
+
 def owner_name(e, default):
     q = e.get('fn') or default
     return q.split(':')[-1]
@@ -564,6 +1239,8 @@ def oneshot_facts(g, stamp_fields):
                                    locations mk) is &v->key  (v = container_of(n, key))
          ('unl', v, key)           *v was unlinked from the list it was on through its node `key`
          ('st', v, fld)            v->fld holds the stamp value stamp_fields[fld]
+         ('unln', n)               the list node the local n points to was unlinked (its object is computed afterwards)
+         ('via', v, key)           v was computed from its node `key` (the list it was found on goes through that node)
        A user callback forgets what is known about objects (it may re-register them)."""
     def cls(S, v):
         out = {v}
@@ -579,7 +1256,7 @@ def oneshot_facts(g, stamp_fields):
         return frozenset(f for f in S if not (
             (f[0] == 'eq' and x in (f[1], f[2])) or
             (f[0] == 'node' and (f[1] == x or f[2] == x or ('var', x) in f[4])) or
-            (f[0] in ('unl', 'st') and f[1] == x)))
+            (f[0] in ('unl', 'st', 'unln', 'via') and f[1] == x)))
 
     def drop_mem(S, kills=None):
         return frozenset(f for f in S if not (f[0] == 'node' and f[4] and (kills is None or (f[4] & kills))))
@@ -597,12 +1274,15 @@ def oneshot_facts(g, stamp_fields):
             if f[0] == 'node' and f[1] in names:
                 for u in cls(S, f[2]):
                     add.add(('unl', u, f[3]))
+        # the node pointer itself was unlinked: whatever object is computed from it afterwards is unlinked
+        for n in var_names(node):
+            add.add(('unln', n))
         return drop_mem(S) | frozenset(add)
 
     def relink(node, S):
         key = member_of_ptr(g, node)
         # linked again: through a pointer that may alias any object of that kind
-        return drop_mem(frozenset(f for f in S if not (f[0] == 'unl' and (key is None or f[2] == key))))
+        return drop_mem(frozenset(f for f in S if not ((f[0] == 'unl' and (key is None or f[2] == key)) or f[0] == 'unln')))
 
     def transfer(e, S):
         ev = e['ev']
@@ -626,15 +1306,19 @@ def oneshot_facts(g, stamp_fields):
                     for f in S0:
                         if f[0] == 'node' and f[2] == w and f[1] != x and ('var', x) not in f[4]:
                             add.add(('node', f[1], x, f[3], f[4]))
-                        elif f[0] in ('unl', 'st') and f[1] == w:
+                        elif f[0] in ('unl', 'st', 'via') and f[1] == w:
                             add.add((f[0], x, f[2]))
+                        elif f[0] == 'unln' and f[1] == w:
+                            add.add(('unln', x))
                     return S | frozenset(add)
                 if isinstance(r, dict) and r.get('k') == 'container_of':
                     key = (r.get('record'), r.get('member'))
-                    add = set()
+                    add = {('via', x, key)}        # x was reached through its node `key`
                     for n in var_names(r['e']):
                         if n != x:
                             add.add(('node', n, x, key, frozenset()))
+                            if ('unln', n) in S0:
+                                add.add(('unl', x, key))
                     inner = strip(r['e'])
                     if isinstance(inner, dict) and inner.get('k') != 'var' and not any(y.get('k') == 'call' for y in walk(inner)):
                         mk = frozenset(_keys_read(inner))
@@ -666,7 +1350,7 @@ def oneshot_facts(g, stamp_fields):
             return S
         if ev == 'call':
             if 'fnexpr' in e:
-                return frozenset(f for f in drop_mem(S) if f[0] not in ('unl', 'st'))
+                return frozenset(f for f in drop_mem(S) if f[0] not in ('unl', 'st', 'unln'))
             nm = e.get('callee')
             if nm not in PURE_CALLS:
                 S = drop_mem(S)
